@@ -49,7 +49,7 @@ PROPS = {
     ),
 }
 
-PROBES = {'C18': ['solver_paused_nonempty', 'two_pausers', 'notify_no_waiter', 'interface_threads_with_equal_names',
+PROBES = {'C18': ['solver_paused_nonempty', 'two_pausers', 'notify_no_waiter', 'interface_threads_with_equal_names', 'two_waiters_meet_before_cont',
                   'queued_while_paused', 'get_result_before_exec', 'get_result_after_exec',
                   'queue_nonempty_at_cp_entry', 'cont_while_solver_between_cps',
                   'wait_returned', 'cli_frontend_runs', 'drain_phase_needed', 'real_solver_loop']}
@@ -130,6 +130,10 @@ def gen(t, prop, tier):
               real_solver=1 if t.bool(0.3) else 0, command_interval=t.choice([1, 1, 2, 3]))
     # interface threads created by the user with one and the same name (thread names need not be unique)
     sc['same_names'] = 1 if (n_iface > 1 and t.bool(0.25)) else 0
+    # two front ends that both pause, wait, and meet each other before either of them continues (both wait() calls must return)
+    if n_iface == 2 and not cli and regime['pause'] and t.bool(0.15):
+        for prog in programs:
+            prog['ops'].insert(0, ['pause', 1, [], 'meet'])
     return sc
 
 
@@ -347,6 +351,14 @@ def _iface_ops(h, ctrl, idx, ops, cm, tids, depth=0):
                 if len(h.holding) > 1:
                     h.probe('two_pausers')
             inner = op[2] if len(op) > 2 and isinstance(op[2], list) else []
+            if len(op) > 3 and op[3] == 'meet' and op[1] and h.meet_parties == 2:
+                # rendezvous with the other interface thread between wait() and cont()
+                with h.meet_cond:
+                    h.meet_n += 1
+                    h.meet_cond.notify_all()
+                    while h.meet_n < 2:
+                        h.meet_cond.wait()
+                h.probe('two_waiters_meet_before_cont')
             _iface_ops(h, ctrl, idx, inner, cm, tids, depth + 1)
             h.iface_left[idx] += len(inner)
             if not h.in_cp:
@@ -435,6 +447,14 @@ def execute(sc, prop):
     n_if = len(programs)
     h.iface_done = [False] * n_if
     h.iface_left = [0] * n_if
+    # rendezvous of two interface threads: both programs must hold the 'meet' pause, else nobody waits for anybody
+    h.meet_parties = sum(1 for p in programs if p.get('kind') != 'cli' and isinstance(p.get('ops'), list) and
+                         any(isinstance(o, list) and len(o) > 3 and o[0] == 'pause' and o[3] == 'meet' and o[1] for o in p['ops']))
+    if h.meet_parties == 2 and sum(1 for p in programs for o in p.get('ops', []) if isinstance(o, list) and len(o) > 3 and o[3] == 'meet') != 2:
+        h.meet_parties = 0
+    h.meet_n = 0
+    h.meet_cond = st.Condition()
+    h.meet_cond.label = 'meet'
     cli_mode = False
 
     def make_iface(idx, prog):
